@@ -6,6 +6,7 @@
 
 mod api;
 mod arith;
+mod atomics;
 mod expr;
 mod find;
 mod sections;
@@ -65,6 +66,34 @@ fn run(src: &Path, out: &Path) -> Result<(), String> {
             .join(",\n"),
     );
     json.push_str("\n],\n");
+
+    // GenAtomics
+    {
+        let mut sites = Vec::new();
+        let mut fns = Vec::new();
+        for (f, name) in [(&map, "map.rs"), (&node, "node.rs"), (&set, "set.rs"), (&map_ref, "map_ref.rs"), (&set_ref, "set_ref.rs")] {
+            let (s, f2) = atomics::scan(f, name);
+            sites.extend(s);
+            fns.extend(f2);
+        }
+        for rel in ["raw/mod.rs", "iter/traverser.rs", "iter/mod.rs"] {
+            let f = parse(src, rel)?;
+            let (s, f2) = atomics::scan(&f, rel);
+            sites.extend(s);
+            fns.extend(f2);
+        }
+        write_if_changed(&out.join("GenAtomics.v"), &atomics::to_coq(&sites, &fns));
+        json.push_str("\"atomics\": [\n");
+        json.push_str(
+            &sites
+                .iter()
+                .map(|x| format!("  {{\"file\": {}, \"fn\": {}, \"line\": {}, \"field\": {}, \"method\": {}, \"ords\": {}}}",
+                    json_str(&x.file), json_str(&x.func), x.line, json_str(&x.field), json_str(&x.method), json_str(&x.ords.join(","))))
+                .collect::<Vec<_>>()
+                .join(",\n"),
+        );
+        json.push_str("\n],\n");
+    }
 
     // GenPanic
     write_if_changed(&out.join("GenPanic.v"), &sections::gen(&map)?);
